@@ -70,7 +70,13 @@ def explore(w, report, cases, prop, harness_re, nmax, per_job_timeout, family, n
             doc = json.load(f)
         for c in good:
             if c.id == doc["case"]:
-                nat = native_run(w, c.harness_rel, doc["harness"], doc["arg"], doc["model"])
+                nat = None
+                if confirm is not None:
+                    # counterexamples of an engine monitor are confirmed by a procedure of their own (race detector,
+                    # instrumented scratch copy): the replay uses the same one
+                    nat = confirm(w, c.harness_rel, doc["harness"], doc["arg"], doc["model"], doc.get("msg", ""))
+                if nat is None:
+                    nat = native_run(w, c.harness_rel, doc["harness"], doc["arg"], doc["model"])
                 print(nat["raw"])
                 print("REPLAY case=%s input=%r fails=%s panic=%s timeout=%s" % (c.id, bytes(doc.get("input", [])), nat["fails"], nat["panic"], nat["timeout"]))
                 report.replayed = 1 if (nat["fails"] or nat["panic"] or nat["timeout"]) else 0
